@@ -427,6 +427,7 @@ class Cluster:
             return
         lo, hi = adv
         v = req.api_version
+        w.probe(f"wire:{req.name}:v{v}")
         if not lo <= v <= hi:
             w.violation("C11", "version_outside_advertised_range",
                         {"api": req.name, "version": v, "advertised": [lo, hi]})
